@@ -24,7 +24,10 @@ TRUSTED = [
     "header id/flags and the class field, reads the raw bytes",
     "sockets are simulated (one IPv4, optionally one IPv6 transport per host); OS-level routing of the datagram is not exercised",
 ]
-ASSUMPTIONS = ["integer-millisecond clock", "queries are delivered on one socket of the host per scenario (each socket has its own listener object)"]
+ASSUMPTIONS = ["integer-millisecond clock",
+               "one flowinfo/scope id per link-local peer address within a scenario (two peers with the same address text on different scopes are not generated)",
+               "UDP source port 0 is not generated: `async_send_with_transport` sends to `port or 5353`, so a legacy query from port 0 would be "
+               "answered to port 5353; port 0 is not a usable source port (RFC 768: 'no reply expected'), the model answers to `port`", "queries are delivered on one socket of the host per scenario (each socket has its own listener object)"]
 
 T0 = vsim.T0
 MDNS6 = "ff02::fb"
@@ -214,6 +217,9 @@ def run_scenario(seed, sc_no):
         tr.install()
         box.update(tr=tr, uni=uni, infos=infos, zc=zc, layout=layout, rx_i=rx_i, rx_v6=rx_v6, lis=rx_tr.protocol, nsocks=len(host.socks), queries=[])
         qid = rng.randrange(1, 60000)
+        # flowinfo / scope id of the link-local peers: fixed per peer for the scenario (the listener keys deferred packets by the
+        # address string alone, the model by the whole address part of the sockaddr), and in general not the receiving socket's
+        v6peer = {ip: (rng.choice([0, 0, 7]), rng.choice([3, 3, 4, 9, 0])) for ip in ("fe80::9", "fe80::8")}
         for _ in range(rng.choice([1, 2, 3, 4, 6])):
             await sim.sleep_ms(rng.choice([0, 1, 20, 130, 501, 1001, 1300, 2500, rng.randint(0, 4000)]))
             now = sim.loop.ms
@@ -224,6 +230,7 @@ def run_scenario(seed, sc_no):
                 e = R.with_ttl(r, ttl)
                 e.created = float(now - age)
                 zc.cache.async_add_records([e])
+                tr.pokes.append((now, uni.id(r)))
             port = rng.choice([5353, 5353, 5353, 40000, 1, 65535, 5354])
             # message ids: boundary-biased, above all for legacy sources (one-shot resolvers do send id 0)
             qid = (qid + rng.randrange(1, 5000)) % 65536 or 1
@@ -235,9 +242,40 @@ def run_scenario(seed, sc_no):
 
             def source(alt=False):
                 if rx_v6:
-                    return ("fe80::8" if alt else "fe80::9", port, 0, 3)
+                    # link-local peers: flowinfo and scope id are part of the address and need not be the receiving socket's
+                    ip = "fe80::8" if alt else "fe80::9"
+                    return (ip, port) + v6peer[ip]
                 return (("10.0.0.7" if alt else rng.choice(["10.0.0.9", "10.0.0.8"])), port)
 
+            if rng.random() < 0.15:
+                # a truncated query: 2..3 datagrams with their own ids and questions (the continuation may carry none), the last one
+                # without TC or lost; the reply echoes id and questions of the FIRST datagram of the train
+                src = source()
+                npk = rng.choice([2, 2, 3])
+                lost_last = rng.random() < 0.3
+                off = 0
+                for j in range(npk):
+                    last = j == npk - 1
+                    if last and lost_last:
+                        break
+                    qid_j = (qid + 257 * j) % 65536
+                    nqj = rng.choice([1, 2]) if j == 0 else rng.choice([0, 0, 1])
+                    if nqj == 0:
+                        from zeroconf import DNSOutgoing, const as _k
+                        o = DNSOutgoing(_k._FLAGS_QR_QUERY | (0 if last else _k._FLAGS_TC))
+                        o.add_answer_at_time(R.with_ttl(uni.recs[0], int(uni.recs[0].ttl)), 0)
+                        d = bytearray(o.packets()[0]); d[0], d[1] = qid_j >> 8, qid_j & 255
+                        data = bytes(d)
+                    else:
+                        data, _qs, _qus = R.build_query(rng, infos, uni, qid_j, nq=nqj, qu_p=0.4, tc=not last, probe=False, known_p=0.3)
+                    box["queries"].append(dict(t=sim.loop.ms + off, src=src, data=data, id=qid_j, probe=False, train=j))
+                    if j == 0:
+                        rx_tr.protocol.datagram_received(data, src)
+                    else:
+                        off += rng.choice([0, 1, 30, 100])
+                        sim.loop.call_later(off / 1000.0, rx_tr.protocol.datagram_received, data, src)
+                await sim.sleep_ms(off + rng.choice([0, 600]))
+                continue
             if rng.random() < 0.35:
                 # the same multi-question datagram twice within (or just outside) a second, from two sources, with the QU
                 # question in every position: each querier's QU question is owed its reply
@@ -251,18 +289,19 @@ def run_scenario(seed, sc_no):
                 questions = [rng.choice(pool[:len(pool) - 4]) for _ in range(nq)]
                 data, qs, qus = R.build_query(rng, infos, uni, qid, questions=questions, qus=qus, probe=probe and rng.random() < 0.3, known_p=0.05)
                 src = source()
-                box["queries"].append(dict(t=now, src=src[:2], data=data, id=qid, probe=probe))
+                box["queries"].append(dict(t=now, src=src, data=data, id=qid, probe=probe))
                 rx_tr.protocol.datagram_received(data, src)
                 await sim.sleep_ms(rng.choice([0, 1, 300, 300, 999, 999, 1000, 1001]))
                 src2 = source(alt=rng.random() < 0.8)
-                box["queries"].append(dict(t=sim.loop.ms, src=src2[:2], data=data, id=qid, probe=probe, twin=True))
+                box["queries"].append(dict(t=sim.loop.ms, src=src2, data=data, id=qid, probe=probe, twin=True))
                 rx_tr.protocol.datagram_received(data, src2)
                 continue
             data, qs, qus = R.build_query(rng, infos, uni, qid, nq=rng.choice([1, 1, 2, 3, 4]), qu_p=0.5, probe=probe, known_p=0.15)
             src = source()
-            box["queries"].append(dict(t=now, src=src[:2], data=data, id=qid, probe=probe))
+            box["queries"].append(dict(t=now, src=src, data=data, id=qid, probe=probe))
             rx_tr.protocol.datagram_received(data, src)
         await sim.sleep_ms(3000)
+        box["end_t"] = sim.loop.ms
         tr.uninstall()
         await vsim.close_host(host)
 
@@ -329,6 +368,11 @@ def check_trace_O(res, box, case):
     uni = tr.uni
     nsocks = box["nsocks"]
     later_mcast = []
+    # which datagrams each reply must be based on (delivered trains, judged from the input: `c12.tc_pass`; its own verdicts are C12's)
+    from . import c12 as _c12
+    lis_blocks = [b for b in tr.blocks if b["kind"] == "qf" or b.get("lis") is box["lis"]]
+    _c12.tc_pass(C.Result("C12"), tr, lis_blocks, case, box.get("end_t", 0))
+    parsed_by_data = {b["data"]: b["parsed"] for b in tr.blocks if b["kind"] == "rx" and b.get("parsed")}
     for bi, b in enumerate(tr.blocks):
         # ---- format of every datagram
         groups = {}
@@ -373,6 +417,26 @@ def check_trace_O(res, box, case):
                                 [uni.describe(i) for i in owed],
                                 next((b["t"] - x["t"] for x in reversed(tr.blocks[:bi]) if x["kind"] == "rx" and x["data"] == b["data"]), "?")),
                             dict(case, at_ms=b["t"] - T0))
+        # ---- a reassembled truncated query: the unicast reply goes to the source, with id and questions of the train's FIRST datagram
+        if b["asm"] and b["asm"]["npkts"] > 1 and b.get("want") and b["lis"] is box["lis"]:
+            first = parsed_by_data.get(b["want"][0])
+            src_full = b["src_full"] if b["kind"] == "rx" else None
+            for o in b["outs"]:
+                if o["mcast"] or first is None:
+                    continue
+                m = o["msg"]
+                at = dict(case, at_ms=b["t"] - T0)
+                legacy = o["to"][1] != 5353
+                if m.id != first["id"]:
+                    res.violate("C11:unicast-id", "reply to a truncated query of %d datagrams has id %d; its first datagram has id %d" % (
+                        len(b["want"]), m.id, first["id"]), at)
+                echoed = [(q.name, q.type, q.class_) for q in m._questions]
+                want_q = [(n, t, c) for (n, t, c, _u) in first["questions"]] if legacy else []
+                if echoed != want_q:
+                    res.violate("C11:question-echo", "reply to a truncated query of %d datagrams (port %d) echoes %s; the first datagram asks %s" % (
+                        len(b["want"]), o["to"][1], echoed, want_q), at)
+                if src_full is not None and o["to_full"] != src_full:
+                    res.violate("C11:unicast-destination", "unicast reply sent to %s, query came from %s" % (o["to_full"], src_full), at)
         # ---- routing of an ordinary query
         if b["kind"] == "rx" and b["asm"] and b["asm"]["npkts"] == 1 and b.get("parsed"):
             pkt = b["parsed"]
@@ -392,8 +456,9 @@ def check_trace_O(res, box, case):
             b["expect_later"] = el - dontcare
             for o in ucasts:
                 m = o["msg"]
-                if o["to"] != src:
-                    res.violate("C11:unicast-destination", "unicast reply sent to %s, query came from %s" % (o["to"], src), at)
+                if o["to_full"] != b["src_full"]:
+                    res.violate("C11:unicast-destination", "unicast reply sent to %s, query came from %s (for IPv6 the destination includes "
+                                "flowinfo and scope id of the source)" % (o["to_full"], b["src_full"]), at)
                 if o["sock"] is not box["lis"].transport.transport.sock:
                     res.violate("C11:unicast-socket", "unicast reply not sent on the receiving socket", at)
                 if m.id != pkt["id"]:
@@ -459,6 +524,9 @@ def run_trace_stream(ctx, res, n, only=None):
                 res.disagree("c11run", dict(case, at_block=kk, at_ms=(kept[kk]["t"] - T0) if kk < len(kept) else None),
                              iobs[kk] if kk < len(iobs) else None, (head, mobs[kk] if kk < len(mobs) else None))
         check_trace_O(res, box, case)
+        for (rid, s_, c_, e_) in R.sighting_gaps(tr, maxdelay=0)[:2]:
+            res.disagree("sightings", dict(case, at_ms=c_), "cache entry of %s at %d ms: %s" % (tr.uni.describe(rid), c_, e_),
+                         "the host multicast it at %d ms: its own transmission must have re-stamped the cache" % s_)
         for b in kept:
             if b["kind"] == "rx" and b["asm"] and b.get("parsed"):
                 p = b["parsed"]
